@@ -182,6 +182,16 @@ def concrete_violation():
             return True, f'{nm}: schema {list(out.columns)} {len(out)} nan={out.isna().any().any()}'
         if not (out['k'] == 4.25).all():
             return True, f'{nm}: constant column not reproduced: {out["k"].to_numpy()}'
+        # every column is modelled by its own marginal: CDF of the column's median is about 1/2
+        if len({id(u) for u in m.univariates}) != len(m.univariates):
+            return True, f'{nm}: several columns share one marginal object'
+        for j, c in enumerate(t.columns):
+            if c == 'k':
+                continue
+            med = float(np.median(t[c]))
+            v_ = float(np.asarray(m.univariates[j].cdf(np.array([med])))[0])
+            if not 0.2 < v_ < 0.8:
+                return True, f'{nm}: marginal of column {c} puts CDF {v_:.3f} at the column median (fitted on another column?)'
         # the sample is Q_j(Phi(Z)) of the seeded normal draws
         st = np.random.RandomState(5)
         Z = st.multivariate_normal(np.zeros(4), m.correlation.to_numpy(), size=7)
